@@ -175,6 +175,10 @@ def scripted():
         img = image_of(gname, tree='T2', nfree=6)
         upc = img[1]
         ops = prologue() + [
+            # a handle whose only write stays inside the existing length (in-place overwrite): the entry must still be written back
+            O('open_file', d='d0', name='A.TXT', mode='Append', as_='fa'), O('seek_start', f='fa', u=0), O('write', f='fa', n=1), O('close_file', f='fa'),
+            O('open_file', d='d0', name='A.TXT', mode='Append', as_='fa'), O('seek_start', f='fa', u=1), O('write', f='fa', n=1), O('flush', f='fa'),
+            O('seek_start', f='fa', u=0), O('write', f='fa', n=2), O('flush', f='fa'), O('seek_start', f='fa', u=0), O('write', f='fa', n=1), O('close_file', f='fa'),
             O('iterate', d='d0'), O('iterate_lfn', d='d0', buf=780), O('iterate_lfn', d='d0', buf=10),
             O('label', v='v0'),
             O('find', d='d0', name='LONGFI~1.TXT'), O('find', d='d0', name='OLD.DAT'), O('find', d='d0', name='NOPE'),
@@ -344,8 +348,11 @@ def scripted():
     # S8: FAT32 information sector variants (C16)
     for tag, info in [('correct', dict(info_next='first')), ('unknown', dict(info_free='unknown')),
                       ('stale0', dict(info_free=0, info_next=3)), ('stalebig', dict(info_free=1000000, info_next=65000)),
-                      ('hintpast', dict(info_next=70000)), ('hintlast', dict(info_next=65526))]:
-        img = image_of('G32a', tree='T1', nfree=6, info=info)
+                      ('hintpast', dict(info_next=70000)), ('hintlast', dict(info_next=65526)),
+                      # the free clusters lie BELOW the stored hint (the search must wrap), with every kind of stored count
+                      ('stale0-mid', dict(info_free=0, info_next=65000)), ('correct-mid', dict(info_next=65000)), ('unknown-mid', dict(info_free='unknown', info_next=65526)),
+                      ('stale1-mid', dict(info_free=1, info_next=60000))]:
+        img = image_of('G32a', tree='T1', nfree=6, info=info, window_mid=tag.endswith('-mid'))
         upc = img[1]
         ops = prologue() + [O('open_file', d='d0', name='I.BIN', mode='Create', as_='f0'), O('write', f='f0', n=3 * upc), O('flush', f='f0'),
                             O('close_file', f='f0'), O('open_file', d='d0', name='I.BIN', mode='Truncate', as_='f0'), O('write', f='f0', n=1),
@@ -380,7 +387,7 @@ def random_history(rng, hid, length=60):
     info = None
     if gname.startswith('G32'):
         info = rng.choice([None, None, dict(info_free='unknown'), dict(info_free='unknown', info_next='first'),
-                           dict(info_next=rng.choice([3, 65526, 70001, 1]))])
+                           dict(info_next=rng.choice([3, 65526, 70001, 1])), dict(info_free=rng.choice([0, 1, 2]), info_next=rng.choice([65000, 65526, 200]))])
     image, upc, bounds = image_of(gname, tree=tree, nfree=nfree, window_mid=rng.random() < 0.25, bounds=bounds, info=info)
     lim = rng.choice(LIMITS)
     while lim[2] < 1:
@@ -660,7 +667,7 @@ def mount_histories(seed, quick):
 
 def fault_histories(seed, quick):
     H = []
-    cap = 40 if quick else 100000
+    cap = 100 if quick else 100000
 
     def add(hid, img, ops, lim=(4, 4, 1)):
         image, upc, bounds = img
